@@ -27,8 +27,14 @@ def _qcls(name):
     return getattr(pypika, name, None) or getattr(d, name)
 
 
-def mk_table(t):
-    """plain-data table reference -> fresh pypika object (None stays None)"""
+SUB_SHAPES = [("x", "y"), ("y", "z"), ("x",)]
+
+
+def mk_table(t, objs=None):
+    """plain-data table reference -> fresh pypika object (None stays None).
+    ["sub", alias|None, src, uid]: a sub-query over table src; uid picks one of several different sub-queries over
+    that table. An un-aliased sub-query is ONE object within a call (the statement names it sq<n> when it is joined /
+    selected from, and the criterion's fields were built from that object)."""
     from pypika import Table, AliasedQuery, Query
     if t is None:
         return None
@@ -37,13 +43,24 @@ def mk_table(t):
     if t[0] == "alq":
         return AliasedQuery(t[1])
     if t[0] == "sub":
-        return Query.from_(Table("inner_" + t[1])).select("x", "y").as_(t[1])
+        _, alias, src, uid = t
+        cache = getattr(objs, "cache", None)
+        if alias is None and cache is not None and (src, uid) in cache:
+            return cache[(src, uid)]
+        q = Query.from_(Table(src)).select(*SUB_SHAPES[uid % 3])
+        if uid % 3 == 1:
+            q = q.where(Table(src).z > uid)
+        if alias is not None:
+            q = q.as_(alias)
+        elif cache is not None:
+            cache[(src, uid)] = q
+        return q
     raise ValueError(t)
 
 
 def mk_field(tref, name, objs):
     from pypika import Field
-    t = mk_table(tref)
+    t = mk_table(tref, objs)
     if t is not None:
         objs.append(t)
     return Field(name, table=t)
@@ -103,7 +120,7 @@ def do_qcall(q, call, objs):
     from pypika import Field, EmptyCriterion, JoinType, Table
     k = call[0]
     if k == "from":
-        t = mk_table(call[1]); objs.append(t)
+        t = mk_table(call[1], objs); objs.append(t)
         return q.from_(t)
     if k == "with":
         from pypika import Query
@@ -132,7 +149,7 @@ def do_qcall(q, call, objs):
         terms = [Field("r%d" % i) for i in range(call[2])]
         return q.rollup(*terms, vendor="mysql") if call[1] else q.rollup(*terms)
     if k == "join":
-        item = mk_table(call[1]); objs.append(item)
+        item = mk_table(call[1], objs); objs.append(item)
         how = getattr(JoinType, call[3]) if len(call) > 3 else JoinType.inner
         j = q.join(item, how)
         h = call[2]
@@ -237,6 +254,7 @@ class ArgList(list):
     def __init__(self, holder):
         super().__init__()
         self.holder = holder
+        self.cache = {}
 
     def append(self, o):
         super().append(o)
